@@ -102,6 +102,14 @@ ROUND8 = {
 }
 
 ROUND10 = {
+ "C03": " Rounds 10-11: 'hashlag' - multi-thread encodes of cheap blocks with the MD5 helper thread (or the feeder) slowed at the hook and block counts on both sides of its 16-slot queue; integer slices handed over at every element offset 0..=3.",
+ "C06": " Round 11: 'stall' - a fault-free source that pauses 2.5-11 s (thorough: up to 61 s) mid-stream in the multi-thread run (helper threads that give up waiting leave blocks without an encoder).",
+ "C12": " Round 11: constructed FixedLpc subframes of every order 0..=4 at 8..25 bits (warm-up beyond one 64-bit word).",
+ "C14": " Round 11: integer slices handed over at every element offset 0..=3 of their allocation (4-byte but not 8/16-byte aligned).",
+ "C15": " Round 11: the subframes of each encoded frame also under a variable-blocking header with 31..36-bit start samples; every second frame parsed by a parser object that has already been handed a prefix and a damaged copy of the frame.",
+ "C16": " Rounds 10-11: metadata blocks of every type tag 0..=127 with STREAMINFO-shaped and other payloads and every bit flip of such a metadata region; frames of FIXED subframes coded with 5-bit Rice parameters up to 30 and remainders near 2^28 behind valid CRCs (parser only; overflow panics surface in the chk pass); 16 (quick) / 60 (thorough) base streams instead of the 7 a generator slip had limited both tiers to.",
+ "C17": " Round 11: hashing contexts declared with a sample width of 0 bits (fix ad8ab2b).",
+ "C18": " Round 11: Verbatim::new with short vectors over the exact limits of the width in every order; frames parsed back by a parser object that has been used before.",
 }
 
 TODO_REASON = "monitor not built yet in this round (work in progress; will be claimed once its check exists)"
